@@ -43,22 +43,45 @@ int main(int argc, char** argv) {
   long minlgk = vt::argl(argc, argv, "--minlgk", 4);
   long maxlgk = vt::argl(argc, argv, "--maxlgk", 12);
   long cap = vt::argl(argc, argv, "--cap", 6000);          // largest number of items in one input
-  int serde_pct = (int)vt::argl(argc, argv, "--serde", 4);
+  int serde_arg = (int)vt::argl(argc, argv, "--serde", 4);
+  // high-precision segment, once per file (segment 0): lg_max_k in hilo..hihi (17..21), inputs of lg_k 17..21 that are in HLL mode
+  // with a few dozen / few hundred coupons (start_full_size) plus one genuinely promoted sketch (lg_k 17, > 12288 coupons);
+  // results observed sparsely (non-zero registers).  --hilo 0 disables it.
+  long hilo = vt::argl(argc, argv, "--hilo", 17), hihi = vt::argl(argc, argv, "--hihi", 20);
+  long promoted = vt::argl(argc, argv, "--promoted", 1);
   vt::open_out(vt::arg(argc, argv, "--out", "/dev/stdout"));
   vt::Rng g(seed);
   Pool pool; pool.build(1u << 20);
+  Mined mined; mined.build(200000);
   for (long seg = 0; seg < segments; seg++) {
     Ev("Begin").i("seg", seg).emit();
-    int nin = (int)g.range(2, NIN);
-    uint8_t lgmax = (uint8_t)g.range(minlgk, maxlgk);
+    bool high = seg == 0 && hilo > 16 && hihi >= hilo;
+    bool prom_here = g.chance(60), smaller_here = g.chance(50);   // both pull the result down to their lg_k: not in every file
+    int serde_pct = high ? 0 : serde_arg;                      // no serde of megabyte images
+    int nin = high ? (int)g.range(4, NIN) : (int)g.range(2, NIN);
+    uint8_t lgmax = (uint8_t)(high ? g.range(hilo, hihi) : g.range(minlgk, maxlgk));
     long universe = 1L << (g.chance(50) ? 14 : 22);         // small universe: inputs share many items
     std::unique_ptr<hll_sketch> in[NIN];
+    // mined collisions (hll_common.hpp Mined): a pair of distinct coupons with the same 26-bit address, planted (0) both into
+    // one input, (1) one into each of two inputs, (2) both as raw items of the unions, (3) one in an input, one raw; plus a pair
+    // of distinct items with the identical coupon split over an input and the raw items
+    int plan = g.chance(70) ? (int)g.below(4) : -1;
+    auto mp = mined.same_addr[g.below(mined.same_addr.size())];
+    if (g.chance(50)) std::swap(mp.first, mp.second);
+    auto mc = mined.same_coupon[g.below(mined.same_coupon.size())];
+    int pin_a = (int)g.below(nin), pin_b = (int)g.below(nin);
+    if (plan == 1 && pin_a == pin_b) pin_b = (pin_a + 1) % nin;
     for (int i = 0; i < nin; i++) {
       // lg_k relative to lg_max_k: smaller, equal, larger all likely
       uint8_t lgk = (uint8_t)(g.chance(40) ? g.range(minlgk, maxlgk) : std::min(maxlgk, std::max(minlgk, (long)lgmax + g.range(-2, 2))));
+      // high-precision segment: input 0 strictly larger than lg_max_k where possible, input 1 equal, input 2 smaller (>= 17),
+      // the others anywhere in 17..21; input 3 is the genuinely promoted one (lg_k 17)
+      if (high) lgk = (uint8_t)(i == 0 ? std::min(21L, (long)lgmax + g.range(1, 2)) : i == 1 ? lgmax : (i == 2 && smaller_here) ? std::max(17L, (long)lgmax - g.range(1, 2)) : g.range(lgmax, 21));
+      bool prom = high && promoted && i == 3 && prom_here;
+      if (prom) lgk = 17;
       long k = 1L << lgk;
       int t = T3[g.below(3)];
-      bool full = g.chance(10);
+      bool full = high ? (!prom && !g.chance(15)) : g.chance(10);
       in[i].reset(new hll_sketch(lgk, tt(t), full));
       emit_new(i, *in[i]);
       long n;
@@ -71,15 +94,31 @@ int main(int argc, char** argv) {
         default: n = g.range(3 * k, 10 * k); break;                      // far beyond k
       }
       n = std::min(n, cap);
+      if (high) n = prom ? 3 * k / 32 + g.range(200, 800) : (g.chance(10) ? 0 : g.range(20, 300));
       std::vector<Item> items;
       int steer = g.chance(40) ? (int)g.range(3, 20) : 0;
-      for (long j = 0; j < n; j++) items.push_back((steer && g.chance(steer)) ? pool.pick(g, 12) : draw(g, universe));
+      for (long j = 0; j < n; j++) items.push_back((steer && g.chance(steer)) ? pool.pick(g, 12) : draw(g, prom ? (1L << 22) : universe));
+      if (high && !items.empty()) {     // addresses with all top bits set: slots >= 2^16 up to the last slots of the array
+        static const std::vector<int> ta = mined.top_addr();
+        for (int q = 0; q < 6 && !ta.empty(); q++) items.push_back(mined.item(ta[g.below(ta.size())], g));
+      }
+      {
+        std::vector<Item> planted;
+        if ((plan == 0 || plan == 1 || plan == 3) && i == pin_a) planted.push_back(mined.item(mp.first, g));
+        if ((plan == 0 && i == pin_a) || (plan == 1 && i == pin_b)) planted.push_back(mined.item(mp.second, g));
+        if (plan >= 0 && i == pin_b) planted.push_back(mined.item(mc.first, g));
+        // at the front (the input is still a list), in the middle or at the end
+        for (auto& pit : planted) { size_t at = g.chance(50) ? 0 : g.below(items.size() + 1); items.insert(items.begin() + at, pit); }
+      }
       feed(i, *in[i], items);
       Ev("Obs").raw("objs", "[" + proj(i, *in[i]) + "]").emit();
     }
     // raw items offered directly to the unions (the same set for every presentation)
     std::vector<Item> raw;
     { long nr = g.chance(30) ? 0 : (g.chance(70) ? g.range(1, 12) : g.range(12, 300)); for (long j = 0; j < nr; j++) raw.push_back(g.chance(10) ? pool.pick(g, 12) : draw(g, universe)); }
+    if (plan == 2) { raw.push_back(mined.item(mp.first, g)); raw.push_back(mined.item(mp.second, g)); }
+    if (plan == 3) raw.push_back(mined.item(mp.second, g));
+    if (plan >= 0) raw.push_back(mined.item(mc.second, g));
     // optional serde round trip of some inputs: the restored sketch is presented instead of the original
     int restored_of[NIN]; std::unique_ptr<hll_sketch> rs[3]; int nrs = 0;
     for (int i = 0; i < nin; i++) {
@@ -129,7 +168,7 @@ int main(int argc, char** argv) {
       for (size_t j = 0; j < raw.size(); j++) order.push_back(-(int)j - 1);
       if (p > 0 || g.chance(50)) for (size_t a = order.size(); a > 1; a--) std::swap(order[a - 1], order[g.below(a)]);
       long reset_at = with_reset ? (long)g.below(order.size() + 1) : -1;
-      int obs_pct = raw.size() > 20 ? 8 : 35;
+      int obs_pct = high ? 12 : (raw.size() > 20 ? 8 : 35);
       for (size_t q = 0; q <= order.size(); q++) {
         if ((long)q == reset_at) { u.reset(); Ev e("UReset"); e.i("u", p); scalars(e, u); e.emit(); }
         // observers, at random, between any two updates (each is an event of its own: get_estimate & co. have side effects)
@@ -165,7 +204,7 @@ int main(int argc, char** argv) {
         }
       }
       // final result in every type, then the estimates
-      for (int t : T3) { hll_sketch r = u.get_result(tt(t)); Ev e("UResult"); e.i("u", p).i("type", t).raw("r", proj(9, r)); scalars(e, u); e.emit(); }
+      for (int t : T3) { if (high && t != 8 && t != T3[p]) continue; hll_sketch r = u.get_result(tt(t)); Ev e("UResult"); e.i("u", p).i("type", t).raw("r", proj(9, r)); scalars(e, u); e.emit(); }
       { Ev e("UEst"); e.i("u", p); est_fields(e, u); scalars(e, u); e.emit(); }
     }
     // the three unions side by side: composite estimates of unions whose contract states agree must agree
